@@ -1119,6 +1119,39 @@ class FI:
                     for k in [k for k in st.mem if k[0] == o]:
                         del st.mem[k]
             return ret(d)
+        if callee in ('memcpy',) or callee.startswith('llvm.memcpy.'):
+            # memcpy(local buffer, text, constant n): both extents checked; the bytes are known when the source is constant
+            d, s_, n_ = args[0], args[1], args[2]
+            if not (isinstance(n_, IV) and n_.lo == n_.hi and isinstance(d, PV) and isinstance(s_, PV)):
+                raise AnalysisBroken('c13_fi: memcpy with a length that is not a constant at %s' % i.where())
+            ln = n_.lo
+            self.check_access(st, d, ln, i, 'memcpy')
+            self.check_access(st, s_, ln, i, 'memcpy')
+            data = None
+            if all(isinstance(a[0], str) and a[0].startswith('g:') and a[1] == a[2] for a in s_.alts):
+                rows = []
+                for a in s_.alts:
+                    b = self.global_bytes(a[0][2:])
+                    rows.append(b[a[1]:a[1] + ln] if b is not None else None)
+                if all(r_ is not None and len(r_) == ln for r_ in rows):
+                    data = []
+                    for col in zip(*rows):
+                        v = IV.const(col[0])
+                        for c in col[1:]:
+                            v = v.join(IV.const(c))
+                        data.append(v)
+            if len(d.alts) == 1 and isinstance(d.alts[0][0], tuple):
+                o, lo, hi = d.alts[0]
+                self.kill_aliases(st, o)
+                if lo == hi and data is not None:
+                    for k in [k for k in st.mem if k[0] == o and lo <= k[1] < lo + ln]:
+                        del st.mem[k]
+                    for j_, bt in enumerate(data):
+                        st.mem[(o, lo + j_, 1)] = bt
+                else:
+                    for k in [k for k in st.mem if k[0] == o]:
+                        del st.mem[k]
+            return ret(d)
         if callee in self.emitters:
             return ret(IV(0, (1 << 31) - 1))
         raise AnalysisBroken('c13_fi: call of %s at %s in %s has no model' % (callee, i.where(), self.fn.name))
